@@ -210,6 +210,15 @@ func runC02(r *core.Run) {
 			return core.Outcome{Class: fmt.Sprint("len-bucket=", bucket(c.Len)), Nontrivial: c.Len >= 2, Evals: 4}
 		})
 
+	marshalHistories(r, "fastq", func() []marshaller {
+		var out []marshaller
+		for _, rc := range []fqRec{{"a", "ACGT", "IIII"}, {"", "", ""}, {"longer name", core.S(longSeq(170)), core.S(longSeq(170))}, {"@", "+", "@"}, {"b", core.S(longSeq(33)), core.S(longSeq(33))}, {"c", "AC", "+I"}} {
+			f := &fastq.Fastq{Name: rc.Name.B(), Sequence: rc.Seq.B(), Quals: rc.Qual.B()}
+			out = append(out, marshaller{fmt.Sprintf("{%q, %d bases}", rc.Name, len(rc.Seq)), f.MarshalText, func(w *bytes.Buffer) error { return f.Write(w) }})
+		}
+		return out
+	})
+
 	cpool := []fqRec{{"a", "A", "I"}, {"", "", ""}, {"@", "@", "@"}, {"r", "AC", "+I"}, {"+", "+A", "I+"}, {"x y", "ACG", "III"}}
 	maxFile := core.Pick(r, 2, 3)
 	r.Bound("corruptions", fmt.Sprintf("every file of 1..%d records over a pool of %d x every record index x {no-at, plus-replaced (by a line 'x'), plus-emptied, plus-deleted (only when the qualities do not start with '+'), quals-longer, quals-shorter, cut at every offset strictly inside the record and up to the first byte of its 4th line}", maxFile, len(cpool)))
